@@ -19,9 +19,14 @@ Reason(ev) ==
     ELSE IF ~CanonicalTiming(ev.d.toks) THEN "timing-line-not-canonical"
     ELSE IF ev.post # ev.g THEN "written-document-denotes-other-cues(library-reader)"
     ELSE "ok"
+\* implementation layer: the transcription of the reader's loop predicts what the hook at the top of the loop saw
+\* on every line (line number, cues so far, lines of the cue being filled) and the cues it returns
+ImplPredicts(ev) == ev.dir = "read" /\ ev.res = "ok" => (ev.hooks = ImplHooks(ev.d) /\ ImplRead(ev.d) = ev.post)
 Init == l = 1
 Step == /\ l <= Len(Trace)
-        /\ LET r == Reason(Trace[l]) IN IF r = "ok" THEN TRUE ELSE PrintT(<<"V", l, Trace[l].n, "C01", r>>)
+        /\ LET r == Reason(Trace[l]) IN
+           IF r = "ok" THEN (IF ImplPredicts(Trace[l]) THEN TRUE ELSE PrintT(<<"V", l, Trace[l].n, "DRIFT", "reader-loop-model-does-not-predict-the-hook-events">>))
+           ELSE PrintT(<<"V", l, Trace[l].n, "C01", r>>)
         /\ l' = l + 1
 Spec == Init /\ [][Step]_l
 Accepted == TLCGet("stats").diameter - 1 = Len(Trace)
